@@ -157,6 +157,7 @@ type history struct {
 	Index int        `json:"history_index"`
 	Fit   string     `json:"segment_fit"`
 	Adv   string     `json:"advertise_policy"`
+	Hold  int        `json:"hold_pointers"` // >0: the client keeps up to this many result pointers unreleased and releases them in random order
 	Calls []callSpec `json:"calls"`
 }
 
@@ -166,6 +167,7 @@ type sessionResult struct {
 	Deadlock    bool      `json:"deadlock"`
 	ServerEnd   string    `json:"server_end"`
 	ServerPanic string    `json:"server_panic,omitempty"`
+	Notes       []string  `json:"notes,omitempty"`
 	stats       shmStats
 }
 
@@ -190,6 +192,11 @@ func runSession(r reporter, h history, withShm bool) sessionResult {
 		srv.Serve(pipeEnd{d, 0}, pipeEnd{d, 1})
 	}()
 	c := &client{d: d, w: pipeEnd{d, 0}, r: pipeEnd{d, 1}, st: &res.stats}
+	if withShm && h.Hold > 0 {
+		c.hold = h.Hold
+		c.heldVals = map[string]string{}
+		c.rng = rand.New(rand.NewPCG(uint64(h.Index)+1, 0x36))
+	}
 	var segs []*cliSeg
 	defer func() {
 		for _, s := range segs {
@@ -214,6 +221,9 @@ func runSession(r reporter, h history, withShm bool) sessionResult {
 		for _, s := range segs {
 			s.sweep()
 			for _, e := range s.m.Header().Entries {
+				if c.isHeld(s, e.Off) {
+					continue // delivered, deliberately not yet released by the client
+				}
 				purpose := "slot allocated by the server and never delivered as a pointer"
 				if sl, mine := s.mine[e.Off]; mine {
 					purpose = sl.purpose
@@ -232,6 +242,29 @@ func runSession(r reporter, h history, withShm bool) sessionResult {
 		if dead {
 			res.Deadlock = true
 			break
+		}
+	}
+	// Release everything the client still holds, in random order, then account once more.
+	if c.hold > 0 {
+		for len(c.held) > 0 {
+			c.releaseHeld(c.rng.IntN(len(c.held)), &res)
+		}
+		for _, s := range segs {
+			s.sweep()
+			for _, e := range s.m.Header().Entries {
+				res.Leaks = append(res.Leaks, fmt.Sprintf("after the client released every held pointer: slot %d+%d still allocated: never delivered as a pointer", e.Off, e.Len))
+				s.free(e.Off)
+			}
+		}
+		res.Notes = append(res.Notes, c.holdNotes...)
+		for i := range res.Obs {
+			for j := range res.Obs[i].Streams {
+				for k := range res.Obs[i].Streams[j].Batches {
+					if v, ok := c.heldVals[res.Obs[i].Streams[j].Batches[k].Values]; ok {
+						res.Obs[i].Streams[j].Batches[k].Values = v
+					}
+				}
+			}
 		}
 	}
 	c.w.Close()
@@ -262,6 +295,13 @@ func genHistory(rng *rand.Rand, idx int) history {
 	h := history{Index: idx}
 	h.Fit = []string{"all", "some", "none"}[idx%3]
 	h.Adv = []string{"every", "first-only", "random"}[(idx/3)%3]
+	if (idx/9)%3 == 1 {
+		// A client is free to keep the pointers it received for a while and to
+		// release them in any order (e.g. it hands the mapped bytes to a
+		// consumer): the results it then reads must still be the results of
+		// those calls, and the table must be empty once all are released.
+		h.Hold = 1 + idx%4
+	}
 	segSize := func() int {
 		switch h.Fit {
 		case "all":
@@ -484,6 +524,25 @@ func runDifferential(r reporter, idx int, tot *totals) {
 		seen[cl] = true
 		r.Violation("leak:"+cl, "after the client released every pointer it received the allocation table is not empty: "+l, witness())
 	}
+	if len(shm.Notes) > 0 {
+		r.Violation("held-pointer:unresolvable-or-unfreeable", "a pointer the client received and kept could no longer be resolved / freed when it released it: "+shm.Notes[0], witness())
+	}
+	if h.Hold > 0 {
+		r.Class("client-holds-pointers")
+		held := false
+		for _, o := range shm.Obs {
+			for _, st := range o.Streams {
+				for _, bt := range st.Batches {
+					if bt.ViaShm && bt.Kind == "data" {
+						held = true
+					}
+				}
+			}
+		}
+		if held {
+			r.Class("held-pointers-resolved-late")
+		}
+	}
 	// observation classes
 	for k := range viaShm {
 		r.Class("via-shm:" + k)
@@ -637,7 +696,8 @@ func main() {
 		"advertise:every", "advertise:first-only", "advertise:random", "segment-changed-mid-connection", "error-mid-stream",
 		"init-error-with-pointer-input", "pointer-request-on-cached-segment", "advertised-but-inline:none", "advertised-but-inline:some",
 		"unadvertised:unary-request", "unadvertised:stream-request", "unadvertised:exchange-input",
-		"threshold-0:via-shm:unary", "threshold-0:via-shm:producer", "threshold-0:via-shm:exchange")
+		"threshold-0:via-shm:unary", "threshold-0:via-shm:producer", "threshold-0:via-shm:exchange",
+		"client-holds-pointers", "held-pointers-resolved-late")
 
 	nDiff := r.N(300, 10000)
 	nNeg := r.N(60, 1500)
